@@ -4,5 +4,5 @@ CONSTANTS
   Writers = {"w1", "w2"}
   K = 1
   N = 2
-INVARIANTS PerWriterOrder DeliveredIsPrefix
+INVARIANTS PerWriterOrder DeliveredIsPrefix HalfCloseLeavesPeerWriting
 PROPERTIES NothingAfterClose
